@@ -35,6 +35,7 @@ type GateMsg struct{ N int }
 type SyncMsg struct{ N int }
 type ProbeMsg struct{ N int }
 type Fence struct{ N int }
+type ctxKey struct{}
 
 // ---- observation ------------------------------------------------------------
 
@@ -482,7 +483,19 @@ func Run(spec Spec, waitOrphans bool) (*Obs, *Sim, error) {
 			opts = append(opts, actor.WithInboxSize(spec.InboxSize))
 		}
 		if len(mws) > 0 {
-			opts = append(opts, actor.WithMiddleware(mws...))
+			if spec.Split > 0 && spec.Split < len(mws) {
+				opts = append(opts, actor.WithMiddleware(mws[:spec.Split]...), actor.WithMiddleware(mws[spec.Split:]...))
+			} else {
+				opts = append(opts, actor.WithMiddleware(mws...))
+			}
+		}
+		switch spec.SpawnCtx {
+		case "live":
+			opts = append(opts, actor.WithContext(context.WithValue(context.Background(), ctxKey{}, "live")))
+		case "cancelled":
+			cctx, cancel := context.WithCancel(context.Background())
+			cancel()
+			opts = append(opts, actor.WithContext(cctx))
 		}
 		if first && spec.SpawnSends > 0 {
 			go func() {
